@@ -89,7 +89,9 @@ class Ctx:
             f.write(cfg_text)
         meta = os.path.join(self.work, "meta-" + name)
         outp = os.path.join(self.work, name + ".out")
-        cmd = ["timeout", str(timeout), "java", "-XX:+UseParallelGC"] + java_opts.split() + \
+        jtmp = os.path.join(self.work, "jtmp-" + name)       # TLC's scratch directories stay out of /tmp
+        os.makedirs(jtmp, exist_ok=True)
+        cmd = ["timeout", str(timeout), "java", "-XX:+UseParallelGC", "-Djava.io.tmpdir=" + jtmp] + java_opts.split() + \
               ["-cp", TLA_CP, "tlc2.TLC", "-workers", str(workers), "-metadir", meta, "-cleanup",
                "-noGenerateSpecTE", "-config", cfg] + list(extra) + [module + ".tla"]
         env = dict(os.environ)
@@ -100,6 +102,7 @@ class Ctx:
         with open(outp, "w") as f:
             p = subprocess.run(cmd, cwd=SPEC, env=env, stdout=f, stderr=subprocess.STDOUT)
         shutil.rmtree(meta, ignore_errors=True)
+        shutil.rmtree(jtmp, ignore_errors=True)
         wall = time.time() - t
         if p.returncode == 124:
             raise ToolError("TLC timeout after %ss on %s" % (timeout, name))
